@@ -112,6 +112,9 @@ class Interp:
             self.solver.add(a)
             if not has_nonlinear(a): self.bsolver.add(a)
         self.model = None
+        self.epoch = 0
+        self.order_choice = {}
+        self.checked_ranges = {}
         self.bound_cache = {}
         self.bound_keep = []
         self.stack = []
@@ -367,6 +370,8 @@ class Interp:
 
     # ------------------------------------------------------------------ function execution
     def run_fn(self, f, args):
+        if f.name.endswith('::new') and 'semantic_state::' in f.name:
+            self.epoch += 1      # number of SemanticState::new calls so far on this path (product templates build more than once)
         if f.name in self.summarize and not self.in_summary:
             if any(isinstance(x, z3.ExprRef) for x in args):
                 return self.summarized_call(f, args)
